@@ -46,6 +46,9 @@ func (p *verifPipe) op(f []string) string {
 		buf := make([]byte, vh.Atoi(f[2]))
 		n, err := p.c[e].Read(buf)
 		switch {
+		case err == nil && (n > len(buf) || n < 0):
+			p.q[e]--
+			return fmt.Sprintf("bad-n %d", n)
 		case err == nil:
 			p.q[e]--
 			return "got " + vh.Hex(buf[:n])
@@ -92,6 +95,9 @@ func TestVerifDPipe(t *testing.T) {
 				case c < 45:
 					ctr++
 					op = fmt.Sprintf("w %d %s", e, vh.Hex(append([]byte{byte(ctr)}, r.Bytes(r.Intn(8))...)))
+					if r.Chance(6) {
+						op = fmt.Sprintf("w %d -", e)
+					}
 				case c < 92:
 					op = fmt.Sprintf("r %d %d", e, r.Pick(0, 1, 2, 4, 9, 100))
 				default:
